@@ -40,6 +40,21 @@
 // pre-probe (K <= probe connect), probe..listen (probe < K <= listen),
 // after-listen (listen < K <= the unlink that shuts the socket down), shutdown.
 // Violation signatures carry the window, never K.
+//
+// Spelling family (spelling.go).  The members above name the file twice by its canonical
+// absolute path.  The same file can be named in many ways on a command line — a doubled
+// slash, a `/./` or `/sub/../` segment, a relative path, no extension — and the DAG's
+// identity downstream (socket address = the lock, history directory) is whatever location
+// the loader derives from the name.  So: first spelling x second spelling x {start, retry},
+// the first run parked at a representative instant at which it is active (inside s1, at its
+// "running" status write; thorough: also right after listen and at the handler's log file).
+// Same oracle; in addition, after both commands ended, the history asked (real loader + real
+// store) under every spelling must show exactly the first run.  Signatures carry
+// `spelling=<first>-vs-<second>`, unless the same finding also shows with the canonical
+// spelling twice (then it does not depend on the spelling and keeps the classic signature).
+// Such a member is validated by its own trace (the parked call is the named call of that
+// very execution), not against the baseline: a relative name adds stats of the working
+// directory, and a tree that derives the location differently adds history directories.
 package main
 
 import (
@@ -65,6 +80,20 @@ type member struct {
 	// (other supervisor options, a tree that issues more or fewer calls); without them K is used as is.
 	At  string `json:"at,omitempty"`
 	Nth int    `json:"nth,omitempty"`
+	// S1/S2 (spelling family): how the first run and the second command name the DAG file (ids of
+	// spelling.go); both empty = the classic family (canonical path twice).
+	S1 string `json:"s1,omitempty"`
+	S2 string `json:"s2,omitempty"`
+}
+
+func (m member) spelled() bool { return m.S1 != "" || m.S2 != "" }
+
+// spellingTag is the signature part of a spelling member ("" for the classic family).
+func (m member) spellingTag() string {
+	if !m.spelled() {
+		return ""
+	}
+	return "/spelling=" + m.S1 + "-vs-" + m.S2
 }
 
 // locate finds the member's call in a trace (or a prefix of one): by name, by (class, occurrence), or K itself.
@@ -92,6 +121,11 @@ func (m member) locate(calls []Call) int {
 func (m member) located() bool { return m.Anchor != "" || m.At != "" }
 
 func (m member) String() string {
+	if m.spelled() {
+		n := m
+		n.S1, n.S2 = "", ""
+		return fmt.Sprintf("%s/first=%s/second=%s", n.String(), m.S1, m.S2)
+	}
 	if m.Anchor != "" {
 		return fmt.Sprintf("K=%d(%s)/B=%s", m.K, m.Anchor, m.B)
 	}
@@ -108,6 +142,8 @@ type harness struct {
 	bin    string
 	base   *baseline
 	seq    int
+	ctl    map[string]map[string]bool // spelling members: classic signatures found with the canonical spelling twice (per instant, kind)
+	offs   map[string]int             // spelling members: where the named call was found last time, relative to the baseline (per first spelling and call)
 }
 
 func (hn *harness) newScene(tag string) (*scene, error) {
@@ -180,7 +216,7 @@ func (hn *harness) plainRun() (*scene, *Trace, error) {
 	if err := sc.earlierRun(); err != nil {
 		return nil, nil, err
 	}
-	if a, err = sc.startA(0); err != nil {
+	if a, err = sc.startA(0, spellings[0]); err != nil {
 		return nil, nil, err
 	}
 	deadline := time.Now().Add(watchdog)
@@ -328,9 +364,81 @@ func (hn *harness) members() []member {
 	return out
 }
 
+// afterListenStat: the first pause point after `listen` in the baseline is a stat of the log directory
+// (Scheduler.setup, before the execution graph is started); returns its occurrence number (0: not so).
+func (b *baseline) afterListenStat() int {
+	if b.anc.listen == 0 || b.anc.listen >= len(b.calls) || b.calls[b.anc.listen].Class != "stat(logdir)" {
+		return 0
+	}
+	n := 0
+	for _, c := range b.calls[:b.anc.listen+1] {
+		if c.Class == "stat(logdir)" {
+			n++
+		}
+	}
+	return n
+}
+
+var secondKinds = []string{"start", "retry"}
+
+// spellingMembers: first spelling x second spelling x kind of second command, the first run parked at a
+// representative instant at which it is active (the full enumeration of instants is the classic family's).
+//
+//	quick:    core x core x {start, retry} inside s1 (the "running" status write);
+//	          {canon} x {each wider spelling} both ways x {start, retry} inside s1
+//	thorough: all x all x {start, retry} inside s1; core x core x {start, retry} right after listen (the
+//	          stat of the log directory, graph not started) and at the creation of the handler's log file;
+//	          {canon} x {one doubled slash at boundary i} both ways x {start, retry} inside s1, every i
+func (hn *harness) spellingMembers() []member {
+	var out []member
+	cross := func(set []spelling, at member) {
+		for _, a := range set {
+			for _, b := range set {
+				for _, kind := range secondKinds {
+					m := at
+					m.S1, m.S2, m.B = a.ID, b.ID, kind
+					out = append(out, m)
+				}
+			}
+		}
+	}
+	inS1 := member{Anchor: "running-status-write"}
+	cross(spellingSet(hn.fl.Thorough()), inS1)
+	if !hn.fl.Thorough() {
+		// the wider spellings against the canonical one, both ways
+		for _, s := range spellings {
+			for _, kind := range secondKinds {
+				if s.Wide {
+					m1, m2 := inS1, inS1
+					m1.S1, m1.S2, m1.B = "canon", s.ID, kind
+					m2.S1, m2.S2, m2.B = s.ID, "canon", kind
+					out = append(out, m1, m2)
+				}
+			}
+		}
+	}
+	if hn.fl.Thorough() {
+		if nth := hn.base.afterListenStat(); nth > 0 {
+			cross(coreSpellings(), member{At: "stat(logdir)", Nth: nth})
+		}
+		cross(coreSpellings(), member{Anchor: "handler-log-create"})
+		for i := 1; i <= hn.boundaryCount(); i++ {
+			id := fmt.Sprintf("dslash-b%d", i)
+			for _, kind := range secondKinds {
+				m1, m2 := inS1, inS1
+				m1.S1, m1.S2, m1.B = "canon", id, kind
+				m2.S1, m2.S2, m2.B = id, "canon", kind
+				out = append(out, m1, m2)
+			}
+		}
+	}
+	return out
+}
+
 // result of one member, as sampled and printed.
 type observation struct {
 	Member       string   `json:"member"`
+	Spelling     string   `json:"spelling,omitempty"`
 	PausedAt     string   `json:"a_parked_at"`
 	Window       string   `json:"window"`
 	Position     string   `json:"a_position"`
@@ -346,11 +454,21 @@ type observation struct {
 	k, nth       int
 }
 
-type finding struct{ sig, detail string }
+// finding: class of the violation, spelling part of its signature ("" in the classic family), window.
+type finding struct{ class, tag, window, detail string }
+
+func (f finding) sig(tagged bool) string {
+	if tagged {
+		return "C16/" + f.class + f.tag + "/window=" + f.window
+	}
+	return "C16/" + f.class + "/window=" + f.window
+}
 
 var errBeyond = fmt.Errorf("first run ended before call K")
 
-func (hn *harness) runMember(mb member, verbose bool) error {
+// evalMember executes one member (repeating it until the execution is parked at the intended call).
+// obs == nil without error: K lies beyond the end of this execution.
+func (hn *harness) evalMember(mb member, verbose bool) (*observation, []finding, error) {
 	var lastWhy string
 	k := mb.K
 	attempts := 3
@@ -359,9 +477,14 @@ func (hn *harness) runMember(mb member, verbose bool) error {
 		// numbered per execution (log writes of three goroutines interleave), so when this execution's
 		// call K is another one the member is repeated with K moved to where the named call was / will be
 		if k = mb.locate(hn.base.calls); k == 0 {
-			return fmt.Errorf("member %s: the baseline has no such call", mb)
+			return nil, nil, fmt.Errorf("member %s: the baseline has no such call", mb)
 		}
-		attempts = 10
+		attempts = 20
+		if mb.spelled() {
+			// the first run's numbering depends on how it names the file (a relative name costs the
+			// stats of the working directory): start from where the call was found last time
+			k += hn.offs[mb.offsetKey()]
+		}
 	}
 	for attempt := 0; attempt < attempts; attempt++ {
 		obs, finds, why, adjust, err := hn.tryMember(mb, k, verbose)
@@ -372,10 +495,10 @@ func (hn *harness) runMember(mb member, verbose bool) error {
 				continue
 			}
 			hn.res.Count("k_beyond_end_of_this_execution", 1)
-			return nil
+			return nil, nil, nil
 		}
 		if err != nil {
-			return err
+			return nil, nil, err
 		}
 		if why != "" {
 			lastWhy = why
@@ -383,26 +506,108 @@ func (hn *harness) runMember(mb member, verbose bool) error {
 			hn.res.Count("members_repeated", 1)
 			continue
 		}
+		if mb.spelled() {
+			hn.offs[mb.offsetKey()] = obs.k - mb.locate(hn.base.calls)
+		}
+		return obs, finds, nil
+	}
+	return nil, nil, fmt.Errorf("scenario not deterministic: member %s: %s", mb, lastWhy)
+}
+
+// spellingDependent tells, for the findings of a spelling member, which ones do not show when the same
+// member is executed with the canonical spelling twice (memoised per instant and kind of second command).
+// A finding that shows there too does not depend on the spelling and gets the classic signature, so that
+// a defect that has nothing to do with spellings is not reported once per pair of spellings.  Only ever
+// executed for members that violate the oracle.
+func (hn *harness) spellingDependent(mb member, finds []finding) []bool {
+	dep := make([]bool, len(finds))
+	if !mb.spelled() || len(finds) == 0 {
+		return dep
+	}
+	if mb.S1 == "canon" && mb.S2 == "canon" {
+		return dep // this IS the classic member
+	}
+	key := fmt.Sprintf("%s|%s|%d|%s", mb.Anchor, mb.At, mb.Nth, mb.B)
+	ctl, done := hn.ctl[key]
+	if !done {
+		c := mb
+		c.S1, c.S2 = "canon", "canon"
+		obs, cf, err := hn.evalMember(c, false)
+		hn.res.Count("spelling-control-members(canonical twice, executed because a spelling member violated)", 1)
+		if err != nil || obs == nil {
+			hn.res.Count("spelling-control-members-failed", 1)
+			cf = nil
+		}
+		ctl = map[string]bool{}
+		for _, f := range cf {
+			ctl[f.sig(false)] = true
+		}
+		hn.ctl[key] = ctl
+	}
+	for i, f := range finds {
+		dep[i] = !ctl[f.sig(false)]
+	}
+	return dep
+}
+
+func (hn *harness) runMember(mb member, verbose bool) error {
+	obs, finds, err := hn.evalMember(mb, verbose)
+	if err != nil || obs == nil {
+		return err
+	}
+	{
 		res := hn.res
 		res.Evaluations++
 		res.Validated++
-		res.Count("members:window="+obs.Window, 1)
-		res.Count(fmt.Sprintf("outcome:window=%s:%s:B=%s:%s", obs.Window, obs.Position, obs.B, obs.BOutcome), 1)
-		res.Nontrivial(vlib.Hash(obs.Window, obs.PausedAt, obs.Position, obs.B, obs.BOutcome, obs.AOutcome, statusClass(obs.StatusBefore), statusClass(obs.StatusAfter)))
+		if mb.spelled() {
+			res.Count("spelling-members:window="+obs.Window, 1)
+			res.Count(fmt.Sprintf("spelling-outcome:window=%s:B=%s:%s", obs.Window, obs.B, obs.BOutcome), 1)
+			if obs.BOutcome == notAccepted {
+				// (the command does not run the DAG under this spelling even when nothing is active: trivial)
+				res.Count(fmt.Sprintf("spelling-not-accepted-by-the-cli:B=%s:second=%s", mb.B, mb.S2), 1)
+			} else {
+				res.Nontrivial(vlib.Hash("spelling", mb.S1, mb.S2, obs.Window, obs.PausedAt, obs.B, obs.BOutcome, obs.AOutcome))
+			}
+		} else {
+			res.Count("members:window="+obs.Window, 1)
+			res.Count(fmt.Sprintf("outcome:window=%s:%s:B=%s:%s", obs.Window, obs.Position, obs.B, obs.BOutcome), 1)
+			res.Nontrivial(vlib.Hash(obs.Window, obs.PausedAt, obs.Position, obs.B, obs.BOutcome, obs.AOutcome, statusClass(obs.StatusBefore), statusClass(obs.StatusAfter)))
+		}
 		res.Sample(obs)
-		for _, f := range finds {
-			res.Violate(f.sig, f.detail, member{K: obs.k, B: mb.B, Anchor: mb.Anchor, At: obs.PausedAt, Nth: obs.nth})
+		dep := hn.spellingDependent(mb, finds)
+		for i, f := range finds {
+			res.Violate(f.sig(dep[i]), f.detail, member{K: obs.k, B: mb.B, Anchor: mb.Anchor, At: obs.PausedAt, Nth: obs.nth, S1: mb.S1, S2: mb.S2})
 		}
 		if verbose {
 			b, _ := json.MarshalIndent(obs, "", "  ")
 			fmt.Printf("%s\n", b)
-			for _, f := range finds {
-				fmt.Printf("FINDING %s: %s\n", f.sig, f.detail)
+			for i, f := range finds {
+				fmt.Printf("FINDING %s: %s\n", f.sig(dep[i]), f.detail)
 			}
 		}
 		return nil
 	}
-	return fmt.Errorf("scenario not deterministic: member %s: %s", mb, lastWhy)
+}
+
+func (m member) offsetKey() string { return m.S1 + "|" + m.Anchor + "|" + m.At }
+
+const notAccepted = "refused(spelling-not-accepted-by-the-cli)"
+
+// querySpellings: the spellings under which the history is asked at the end of a spelling member.
+func (hn *harness) querySpellings(sc *scene) []spelling {
+	// (asked in-process: cheap, so every spelling in every tier)
+	return append(spellingSet(true), sc.boundarySpellings()...)
+}
+
+// lastLine: the last error line of a command's output, else its last line.
+func lastLine(s string) string {
+	l := strings.Split(strings.TrimSpace(s), "\n")
+	for i := len(l) - 1; i >= 0; i-- {
+		if strings.Contains(l[i], "level=ERROR") {
+			return l[i]
+		}
+	}
+	return l[len(l)-1]
 }
 
 func statusClass(s string) string {
@@ -435,6 +640,15 @@ func (hn *harness) tryMember(mb member, k int, verbose bool) (obs *observation, 
 	if mb.located() {
 		wantClass = hn.base.calls[mb.locate(hn.base.calls)-1].Class
 	}
+	s1, s2 := spellings[0], spellings[0]
+	if mb.spelled() {
+		var ok1, ok2 bool
+		s1, ok1 = findSpelling(mb.S1)
+		s2, ok2 = findSpelling(mb.S2)
+		if !ok1 || !ok2 {
+			return nil, nil, "", 0, fmt.Errorf("member %s: unknown spelling", mb)
+		}
+	}
 	sc, err := hn.newScene("m")
 	if err != nil {
 		return nil, nil, "", 0, err
@@ -447,7 +661,7 @@ func (hn *harness) tryMember(mb member, k int, verbose bool) (obs *observation, 
 	all := func(marker) bool { return true }
 
 	// phase 1: A runs to the entry of its call K
-	if a, err = sc.startA(k); err != nil {
+	if a, err = sc.startA(k, s1); err != nil {
 		return nil, nil, "", 0, err
 	}
 	deadline := time.Now().Add(watchdog)
@@ -472,6 +686,16 @@ func (hn *harness) tryMember(mb member, k int, verbose bool) (obs *observation, 
 		return nil, nil, fmt.Sprintf("trace at the pause point has %d calls, expected %d with the last one pending", len(tr.Calls), k), 0, nil
 	}
 	parked := tr.Calls[k-1]
+	if mb.spelled() && mb.Anchor != "" {
+		// the parked call must be exactly the named call of THIS execution (its trace up to here includes it)
+		if at := resolveAnchor(tr.Calls, mb.Anchor); at != k {
+			adjust = 1
+			if at > 0 {
+				adjust = at - k
+			}
+			return nil, nil, fmt.Sprintf("call %d of this execution (%s) is not its %s", k, parked.Class, mb.Anchor), adjust, nil
+		}
+	}
 	if wantClass != "" && parked.Class != wantClass {
 		adjust = 1
 		if at := mb.locate(tr.Calls[:k-1]); at > 0 {
@@ -488,20 +712,36 @@ func (hn *harness) tryMember(mb member, k int, verbose bool) (obs *observation, 
 			return nil, nil, fmt.Sprintf("call %d of this execution is not occurrence %d of %s", k, mb.Nth, mb.At), adjust, nil
 		}
 	}
-	// the strictly sequential start-up must be the baseline's, call by call
+	// the strictly sequential start-up must be the baseline's, call by call.  (Not for the spelling
+	// family: a relative name adds stats of the working directory, and a tree that keys the location
+	// differently creates another history directory; such a member is validated by its own trace — the
+	// parked call is the named call of this very execution — and its window is read from that trace.)
 	bs := startupClasses(hn.base.calls)
 	for i, c := range tr.Calls {
-		if i < len(bs) && c.Class != bs[i] {
+		if !mb.spelled() && i < len(bs) && c.Class != bs[i] {
 			return nil, nil, fmt.Sprintf("call %d is %s, in the baseline %s", i+1, c.Class, bs[i]), 0, nil
 		}
 	}
 	// later: the milestones passed so far must be a prefix of the baseline's
-	if got, want := milestones(tr.Calls[:k-1]), milestones(hn.base.calls); len(got) > len(want) || strings.Join(got, " ") != strings.Join(want[:len(got)], " ") {
+	if got, want := milestones(tr.Calls[:k-1]), milestones(hn.base.calls); !mb.spelled() && (len(got) > len(want) || strings.Join(got, " ") != strings.Join(want[:len(got)], " ")) {
 		return nil, nil, fmt.Sprintf("milestones before call %d are %v, the baseline's are %v", k, got, want), 0, nil
 	}
 	window := windowOf(tr.Calls, k)
 	ms0 := sc.markers()
 	position := positionOf(ms0)
+	if mb.spelled() {
+		for _, c := range tr.Calls[:k-1] {
+			if c.Class == "bind(sock)" && c.Done && c.Ret == 0 {
+				sc.sockA = c.Path // the status endpoint is asked where the first run was seen to bind
+			}
+		}
+		if window != wListen && resolveAnchor(tr.Calls[:k-1], "s1-log-create") > 0 {
+			// no listen on a socket address the supervisor was told about, but the first run has launched
+			// its first step: "while steps run" is an instant of its life at which it is active
+			window = wListen
+			hn.res.Count("spelling-members:active-by-step-launch(no-listen-seen)", 1)
+		}
+	}
 	// the first run counts as active — so that a second start must be refused — from the moment its
 	// status socket listens until its last handler has ended; before that the two starts are
 	// "issued at the same moment" (either may win, never both)
@@ -509,6 +749,9 @@ func (hn *harness) tryMember(mb member, k int, verbose bool) (obs *observation, 
 	symmetric := window == wPreProbe || window == wProbe
 	obs = &observation{Member: mb.String(), PausedAt: parked.Class, Window: window, Position: position, B: mb.B}
 	obs.Member = fmt.Sprintf("K=%d/B=%s", k, mb.B)
+	if mb.spelled() {
+		obs.Spelling = fmt.Sprintf("first run: `start %s` in <installation>/%s; second command: `%s %s` in <installation>/%s", s1.Arg, s1.Cwd, mb.B, s2.Arg, s2.Cwd)
+	}
 	obs.k = k
 	for _, c := range tr.Calls {
 		if c.Class == parked.Class {
@@ -524,7 +767,7 @@ func (hn *harness) tryMember(mb member, k int, verbose bool) (obs *observation, 
 
 	// phase 2: B while A is parked
 	obs.StatusBefore = sc.askStatus()
-	if b, err = sc.startB(mb.B); err != nil {
+	if b, err = sc.startB(mb.B, s2); err != nil {
 		return nil, nil, "", 0, err
 	}
 	isB := func(m marker) bool { return m.Pid == b.pid() }
@@ -645,12 +888,46 @@ func (hn *harness) tryMember(mb member, k int, verbose bool) (obs *observation, 
 	if !bEndedWhileParked && runOf(ms1, isB) == "" {
 		return nil, nil, "", 0, fmt.Errorf("member %s: internal: B neither ended nor began", mb)
 	}
+	// spelling family: what the history shows for the file under every spelling (asked of the real loader
+	// and the real store, now that both commands have ended), and — when the second command was refused
+	// with neither "already running" nor a probe timeout — whether it runs the DAG at all under its spelling
+	var byHistory []string
+	if mb.spelled() {
+		for _, q := range hn.querySpellings(sc) {
+			got, err := sc.runsUnder(q)
+			want := []string{}
+			if execA != "" {
+				want = append(want, execA)
+			}
+			switch {
+			case err != nil:
+				byHistory = append(byHistory, fmt.Sprintf("%s: %v", q.ID, err))
+			case strings.Join(got, " ") != strings.Join(want, " "):
+				byHistory = append(byHistory, fmt.Sprintf("%s: %d run(s) %v", q.ID, len(got), got))
+			}
+		}
+		if obs.BOutcome == "refused(other)" {
+			ok, err := sc.accepted(mb.B, s2)
+			if err != nil {
+				return nil, nil, "", 0, fmt.Errorf("member %s: %v", mb, err)
+			}
+			if !ok {
+				obs.BOutcome = notAccepted
+			}
+		}
+	}
 
 	// ---------------------------------------------------------------- oracle ---
+	if mb.spelled() {
+		obs.Spelling += fmt.Sprintf("; the second command said: %s", canon(sc, tail(lastLine(bOut), 160), "", ""))
+	}
 	ctx := fmt.Sprintf("first run parked at the entry of its call %d [%s] (window %s, %s); second run = `%s`: %s, exit %d; first run: %s, exit %d; status endpoint before/after the second run: %q / %q; markers %v; new history records %v",
 		k, sc.short(parked), window, position, mb.B, obs.BOutcome, b.exit, obs.AOutcome, a.exit, obs.StatusBefore, obs.StatusAfter, obs.Markers, obs.Records)
 	add := func(sig, what string) {
-		finds = append(finds, finding{"C16/" + sig, canon(sc, what+" — "+ctx, reqA, reqB)})
+		finds = append(finds, finding{sig, mb.spellingTag(), window, canon(sc, what+" — "+ctx, reqA, reqB)})
+	}
+	addTagged := func(sig, tag, what string) {
+		finds = append(finds, finding{sig, tag, window, canon(sc, what+" — "+ctx, reqA, reqB)})
 	}
 	// the two runs were active at the same time: one's first begin lies before the other's last handler end
 	concurrent := func() bool {
@@ -704,7 +981,9 @@ func (hn *harness) tryMember(mb member, k int, verbose bool) (obs *observation, 
 		}
 		return "", ""
 	}
-	w := "/window=" + window
+	if mb.spelled() {
+		ctx = obs.Spelling + " — " + ctx
+	}
 	switch {
 	case active:
 		// A listens and has not finished its handlers: B must be refused
@@ -713,23 +992,28 @@ func (hn *harness) tryMember(mb member, k int, verbose bool) (obs *observation, 
 			if bothInside {
 				what += " (after the release both runs were inside a step at the same time)"
 			}
-			add("second-start-executes"+w, what)
+			add("second-start-executes", what)
 			break // everything else is a consequence
 		}
 		if b.exit == 0 {
-			add("second-start-not-refused"+w, "the second start exited 0 while the first run was active")
+			add("second-start-not-refused", "the second start exited 0 while the first run was active")
 		}
 		if !bEndedWhileParked {
-			add("second-start-not-refused"+w, "the second start did not end while the first run was parked")
+			add("second-start-not-refused", "the second start did not end while the first run was parked")
 		}
 		if f := foreign(execA); f != "" {
-			add("refused-start-recorded-a-run"+w, "the refused second start left a history record: "+f)
+			add("refused-start-recorded-a-run", "the refused second start left a history record: "+f)
 		}
 		if strings.HasPrefix(obs.StatusBefore, "running ") && obs.StatusAfter != obs.StatusBefore {
-			add("active-run-disturbed/status-endpoint"+w, "the first run's status endpoint answered before the second start and not (or differently) after it")
+			add("active-run-disturbed/status-endpoint", "the first run's status endpoint answered before the second start and not (or differently) after it")
 		}
 		if kind, what := intact("the first run", a, runA, execA); kind != "" {
-			add("active-run-disturbed/"+kind+w, what)
+			add("active-run-disturbed/"+kind, what)
+		}
+		if len(byHistory) > 0 && len(finds) == 0 { // (with another finding it would be its consequence)
+			// (what the history shows depends on how the first run named the file and on how the question
+			// names it, not on the second command: the signature carries the first spelling only)
+			addTagged("history-under-spelling", "/first="+mb.S1, "after both commands ended the history of the file does not show exactly the first run under every spelling (spelling: runs found): "+strings.Join(byHistory, "; "))
 		}
 	case symmetric:
 		// two starts issued at the same moment (neither listens yet): either may win, never both
@@ -738,7 +1022,7 @@ func (hn *harness) tryMember(mb member, k int, verbose bool) (obs *observation, 
 			if bothInside {
 				what += " (after the release both runs were inside a step at the same time)"
 			}
-			add("second-start-executes"+w, what)
+			add("second-start-executes", what)
 			break // everything else is a consequence
 		}
 		if runA == "" && runB == "" {
@@ -749,39 +1033,39 @@ func (hn *harness) tryMember(mb member, k int, verbose bool) (obs *observation, 
 			winner, wp, wrun, wreq, loser, lp, lout = "the first start", a, runA, execA, "the second start", b, obs.BOutcome
 		}
 		if lp.exit == 0 {
-			add("second-start-not-refused"+w, loser+" lost the race, executed nothing and still exited 0")
+			add("second-start-not-refused", loser+" lost the race, executed nothing and still exited 0")
 		}
 		if f := foreign(wreq); f != "" {
-			add("refused-start-recorded-a-run"+w, fmt.Sprintf("%s lost the race (%s, exit %d, no step executed) and left a history record: %s", loser, lout, lp.exit, f))
+			add("refused-start-recorded-a-run", fmt.Sprintf("%s lost the race (%s, exit %d, no step executed) and left a history record: %s", loser, lout, lp.exit, f))
 		}
 		if wp == b && strings.HasPrefix(obs.StatusAfter, "running ") && statusReleased != obs.StatusAfter {
-			add("active-run-disturbed/status-endpoint"+w, fmt.Sprintf("the winner's status endpoint answered %q before the loser went on and %q after the loser was refused", obs.StatusAfter, statusReleased))
+			add("active-run-disturbed/status-endpoint", fmt.Sprintf("the winner's status endpoint answered %q before the loser went on and %q after the loser was refused", obs.StatusAfter, statusReleased))
 		}
 		if kind, what := intact(winner, wp, wrun, wreq); kind != "" {
-			add("active-run-disturbed/"+kind+w, what)
+			add("active-run-disturbed/"+kind, what)
 		}
 	default:
 		// A's last handler has ended (or its socket server is shut down): B may be refused or run
 		if concurrent {
-			add("shutdown-window/runs-overlap"+w, "the second run began a step before the first run's last handler ended")
+			add("shutdown-window/runs-overlap", "the second run began a step before the first run's last handler ended")
 			break
 		}
 		if kind, what := intact("the first run", a, runA, execA); kind != "" {
-			add("shutdown-window/first-run-"+kind+w, what)
+			add("shutdown-window/first-run-"+kind, what)
 		}
 		if runB != "" {
 			if kind, what := intact("the second run", b, runB, execB); kind != "" {
-				add("shutdown-window/second-run-"+kind+w, what)
+				add("shutdown-window/second-run-"+kind, what)
 			}
 			if f := foreign(execA, execB); f != "" {
-				add("shutdown-window/foreign-record"+w, "a history record belongs to neither run: "+f)
+				add("shutdown-window/foreign-record", "a history record belongs to neither run: "+f)
 			}
 		} else {
 			if b.exit == 0 {
-				add("second-start-not-refused"+w, "the second start executed nothing and still exited 0")
+				add("second-start-not-refused", "the second start executed nothing and still exited 0")
 			}
 			if f := foreign(execA); f != "" {
-				add("refused-start-recorded-a-run"+w, "the refused second start left a history record: "+f)
+				add("refused-start-recorded-a-run", "the refused second start left a history record: "+f)
 			}
 		}
 	}
@@ -812,6 +1096,7 @@ func canon(sc *scene, s, reqA, reqB string) string {
 	}
 	s = uuidRe.ReplaceAllString(s, "<?>")
 	s = pidRe.ReplaceAllString(s, "$1")
+	s = strings.ReplaceAll(s, sc.inst, "<installation>")
 	s = strings.ReplaceAll(s, sc.name, "<dag>")
 	s = stampRe.ReplaceAllString(s, "<time>.<req8>")
 	s = md5Re.ReplaceAllString(s, "<md5>")
@@ -855,8 +1140,8 @@ func main() {
 	log.SetOutput(io.Discard)
 	fl := vlib.ParseFlags()
 	res := vlib.New("c16")
-	hn := &harness{res: res, fl: fl, vtrace: os.Getenv("VERIF_VTRACE"), bin: os.Getenv("VERIF_BLACKDAGGER")}
-	res.Rule = "a member is (call K of the first run at whose entry its thread is parked, kind of second run); members are distinct and non-trivial when they differ in (window of the first run's life, class of the parked call, step position of the first run, kind of second run, outcome of the second run, answers of the status endpoint before/after)"
+	hn := &harness{res: res, fl: fl, vtrace: os.Getenv("VERIF_VTRACE"), bin: os.Getenv("VERIF_BLACKDAGGER"), offs: map[string]int{}, ctl: map[string]map[string]bool{}}
+	res.Rule = "spelling family: a member is (spelling of the first run, spelling of the second command, kind of second command, named instant of the first run); non-trivial when the second command runs the DAG under its spelling when nothing is active (else counted as not accepted by the CLI); distinct by (first, second, kind, window, parked call, outcomes) | a member is (call K of the first run at whose entry its thread is parked, kind of second run); members are distinct and non-trivial when they differ in (window of the first run's life, class of the parked call, step position of the first run, kind of second run, outcome of the second run, answers of the status endpoint before/after)"
 	finish := func() {
 		for _, s := range globSockets() {
 			_ = os.Remove(s)
@@ -923,8 +1208,21 @@ func main() {
 		return
 	}
 	mbs := hn.members()
+	sp := hn.spellingMembers()
 	if fl.Shard == 0 {
 		res.Count("members_enumerated", int64(len(mbs)))
+		res.Count("spelling_members_enumerated", int64(len(sp)))
+	}
+	var ids []string
+	for _, s := range spellings {
+		ids = append(ids, fmt.Sprintf("%s=`%s` in %s", s.ID, s.Arg, s.Cwd))
+	}
+	res.Bounds["spellings"] = strings.Join(ids, "; ") + " ({D} = <installation>/dags, {I} = <installation>, {N} = DAG name, {C} = canonical path, {C//} = every slash doubled; working directory relative to the installation)"
+	if fl.Thorough() {
+		res.Bounds["spelling_family"] = fmt.Sprintf("first x second over all %d spellings x {start, retry}, first run parked inside s1 (its 'running' status write); first x second over the %d core spellings x {start, retry} parked right after listen (stat of the log directory, occurrence %d) and at the creation of the handler's log file; {canon} x {one slash doubled at boundary i of the canonical path, i = 1..%d} both ways x {start, retry} inside s1",
+			len(spellingSet(true)), len(coreSpellings()), b.afterListenStat(), hn.boundaryCount())
+	} else {
+		res.Bounds["spelling_family"] = fmt.Sprintf("first x second over the %d core spellings x {start, retry} + {canon} x {each of the %d wider spellings} both ways x {start, retry}, first run parked inside s1 (its 'running' status write)", len(coreSpellings()), len(spellings)-len(coreSpellings()))
 	}
 	if fl.Thorough() {
 		res.Bounds["family"] = fmt.Sprintf("every K = 1..N+2 = 1..%d x {start, retry}", b.n+2)
@@ -932,6 +1230,15 @@ func main() {
 		res.Bounds["family"] = fmt.Sprintf("every K from the first call to the creation of the s1 log file + 1 (K = 1..%d; listen is K = %d) plus the named later calls %v, second run = start", b.startupEnd(), b.anc.listen, anchorNames)
 	}
 	for i, mb := range mbs {
+		if !fl.Mine(i) {
+			continue
+		}
+		if err := hn.runMember(mb, false); err != nil {
+			res.CheckError("%v", err)
+		}
+	}
+	// (dealt by their own index: the number of classic members is N-dependent and N is per shard)
+	for i, mb := range sp {
 		if !fl.Mine(i) {
 			continue
 		}
